@@ -35,7 +35,7 @@ Lemma c13_event_ok d lst s o s' outs :
   c13_event d (next_list lst o) (observe s) (mkEvent o outs (observe s')) = true /\
   KeysAre s' (next_list lst o).
 Proof.
-  intros I SO Hd HK. destruct SO as [I' Hr' Hd' CT SK SOut _ _].
+  intros I SO Hd HK. destruct SO as [I' Hr' Hd' CT SK SOut _ _ _].
   pose proof I' as [W' P' T' C' U' J'].
   assert (K' : KeysAre s' (next_list lst o)).
   { destruct o as [id b|[|x r]|dt|k|k]; cbn [next_list]; try exact SK;
